@@ -211,6 +211,45 @@ fn run_w<const B: usize, const L: usize, const NB: usize>(scn: &Obj) -> Value {
                 ev.rec("bit_ct", || ch(a.bit_ct(su)));
             }
         }
+        "gen" => {
+            // C04: random / arbitrary generators yield canonical values (raw limbs are logged)
+            let seed = scn["seed"].as_u64().unwrap();
+            let k = scn["k"].as_u64().unwrap() as usize;
+            let pool = j_to_bytes(&scn["pool"]);
+            ev.rec("r8_std", || { use rand_08::{Rng, SeedableRng}; let mut r = rand_08::rngs::StdRng::seed_from_u64(seed); (0..k).map(|_| r.gen::<U<B, L>>()).collect::<Vec<_>>() });
+            ev.rec("r8_bits", || { use rand_08::{Rng, SeedableRng}; let mut r = rand_08::rngs::StdRng::seed_from_u64(seed); (0..k).map(|_| Bits::from(r.gen::<U<B, L>>())).collect::<Vec<_>>() });
+            ev.rec("r9_with", || { use rand_09::SeedableRng; let mut r = rand_09::rngs::StdRng::seed_from_u64(seed); (0..k).map(|_| U::<B, L>::random_with(&mut r)).collect::<Vec<_>>() });
+            ev.rec("r9_std", || { use rand_09::{Rng, SeedableRng}; let mut r = rand_09::rngs::StdRng::seed_from_u64(seed); (0..k).map(|_| r.random::<U<B, L>>()).collect::<Vec<_>>() });
+            ev.rec("r9_rize", || { use rand_09::SeedableRng; let mut r = rand_09::rngs::StdRng::seed_from_u64(seed); (0..k).map(|_| { let mut x = a; x.randomize_with(&mut r); x }).collect::<Vec<_>>() });
+            ev.rec("r9_thread", || (0..k).map(|_| U::<B, L>::random()).collect::<Vec<_>>());
+            ev.rec("arb", || { use arbitrary::Arbitrary; let mut u = arbitrary::Unstructured::new(&pool); (0..k).filter_map(|_| U::<B, L>::arbitrary(&mut u).ok()).collect::<Vec<_>>() });
+            ev.rec("arb_hint", || { use arbitrary::Arbitrary; let (lo, hi) = <U<B, L> as Arbitrary>::size_hint(0); (N(lo), hi.map(N)) });
+            ev.rec("qc", || { use quickcheck::Arbitrary; let mut g = quickcheck::Gen::new(64); (0..k).map(|_| <U<B, L> as Arbitrary>::arbitrary(&mut g)).collect::<Vec<_>>() });
+            ev.rec("prop", || {
+                use proptest::strategy::{Strategy, ValueTree};
+                let mut runner = proptest::test_runner::TestRunner::deterministic();
+                let st = proptest::arbitrary::any::<U<B, L>>();
+                (0..k).map(|_| st.new_tree(&mut runner).unwrap().current()).collect::<Vec<_>>()
+            });
+            ev.rec("prop_bits", || {
+                use proptest::strategy::{Strategy, ValueTree};
+                let mut runner = proptest::test_runner::TestRunner::deterministic();
+                let st = proptest::arbitrary::any::<Bits<B, L>>();
+                (0..k).map(|_| st.new_tree(&mut runner).unwrap().current()).collect::<Vec<_>>()
+            });
+            ev.rec("prop_shrunk", || {
+                // simplification must stay inside the canonical set as well
+                use proptest::strategy::{Strategy, ValueTree};
+                let mut runner = proptest::test_runner::TestRunner::deterministic();
+                let st = proptest::arbitrary::any::<U<B, L>>();
+                let mut out = Vec::new();
+                for _ in 0..k.min(8) {
+                    let mut t = st.new_tree(&mut runner).unwrap();
+                    for _ in 0..6 { if !t.simplify() { break; } out.push(t.current()); }
+                }
+                out
+            });
+        }
         "facp" => {
             // FromPrimitive / NumCast / Num::from_str_radix from a primitive value (sign + magnitude)
             let neg = scn["sg"].as_bool().unwrap();
